@@ -34,7 +34,9 @@ META = {
     "rule": "marker programs: grammar-generated programs whose string literals are unique markers 'M<n>' laid out with "
             "random trivia (multi-line expressions, comments and blank lines anywhere, LF / CRLF); configurations: "
             "sampled subsets in random order of the 13 default rules, remove_spaces followed by random sequences of "
-            "line-neutral rules, append_text_comment at start (single and multi-line); a case is non-trivial when at "
+            "line-neutral rules, append_text_comment at start (single and multi-line); bundles of an entry and 2-4 modules "
+            "(require_mode path) whose modules end with / without a final line break, a trailing comment, a multi-line "
+            "last token (every marker of a file shifted by one amount = height of the files above it); a case is non-trivial when at "
             "least 3 markers on at least 2 different lines survive; distinct by (configuration, source)",
     "assumptions": ["a marker literal found in the output is the original literal (markers are unique strings; string "
                     "concatenation of two markers is not a marker)"],
@@ -88,19 +90,22 @@ REFACTORINGS = ["convert_local_function_to_assign", "convert_function_to_assignm
                 "make_assignment_local"]
 LINE_NEUTRAL = LOWERING + REMOVAL_INJECTION + REFACTORINGS
 
-MARKER_RE = re.compile(rb"^(?:[\"']M([0-9]+)[\"']|M([0-9]+)|7([0-9]{4}))$")
+MARKER_RE = re.compile(rb"^(?:[\"']M[a-z]?([0-9]+)[\"']|M[a-z]?([0-9]+)|7([0-9]{4}))$")
 
 
 class Markers:
-    def __init__(self):
+    def __init__(self, prefix=""):
         self.n = 0
+        self.prefix = prefix      # one letter per file when several files are bundled
 
     def __call__(self, kind):
         self.n += 1
         if kind == "string":
-            return ('"M%d"' if self.n % 2 else "'M%d'") % self.n
+            return ('"M%s%d"' if self.n % 2 else "'M%s%d'") % (self.prefix, self.n)
         if kind == "name":
-            return "M%d" % self.n
+            return "M%s%d" % (self.prefix, self.n)
+        if self.prefix:
+            return str(self.n)      # number markers are not unique across files: plain numbers instead
         return str(70000 + self.n)
 
 
@@ -145,6 +150,103 @@ WITNESS_JOBS = [
     ({"rules": ["remove_unused_if_branch"]}, "if a then\n f(1)\nelseif true then\n M1()\nelse\n M2()\nend\nM3()\n"),
     ({"rules": [{"rule": "append_text_comment", "text": "x", "location": "end"}]}, "local a = M1;\n"),
 ]
+
+
+# ---- bundling: an entry and 2-4 required modules in one output file
+
+MODULE_ENDINGS = [
+    ("newline", "\nreturn %s\n"),
+    ("no-newline", "\nreturn %s"),
+    ("comment-same-line", "\nreturn %s -- bye"),
+    ("comment-line", "\nreturn %s\n-- tail"),
+    ("comment-line-newline", "\nreturn %s\n-- tail\n"),
+    ("long-comment", "\nreturn %s --[[\nx\n]]"),
+    ("blank-lines", "\nreturn %s\n\n\n"),
+    ("multi-line-last-token", "\nreturn %s .. [[\nx\ny]]"),
+    ("multi-line-last-token-newline", "\nreturn %s .. [[\nx\ny]]\n"),
+]
+KEY_BUNDLE_MULTILINE = "bundle-module-ends-in-multi-line-token:return_[[<LF>x<LF>y]]"
+
+BUNDLE_CONFIGS = [
+    {"rules": [], "bundle": {"require_mode": "path"}},
+    {"rules": ["remove_spaces", "remove_comments"], "bundle": {"require_mode": "path"}},
+]
+# the default rules as well, on the hand-written bodies only (generated bodies trip the recorded rule defects)
+BUNDLE_CONFIG_DEFAULT = {"bundle": {"require_mode": "path"}}
+
+
+def bundle_case(rng, i, n_modules, endings=None, simple=False):
+    """(entry source, {path: module source}, [ending name per module])"""
+    files = {}
+    names = []
+    used = []
+    for k in range(n_modules):
+        letter = "abcd"[k]
+        if simple:
+            body = "print(M%s1)\nlocal x = M%s2\n\nprint(x,\n  M%s3)" % (letter, letter, letter)
+        else:
+            body, _, _, _ = G.program(rng, mode="random", markers=Markers(letter), density=2, avoid_known=True, module=True)
+            body = body.rstrip()
+        ending = endings[k] if endings else MODULE_ENDINGS[rng.randrange(len(MODULE_ENDINGS))]
+        if isinstance(ending, str):
+            ending = next(e for e in MODULE_ENDINGS if e[0] == ending)
+        used.append(ending[0])
+        files["src/m%s.lua" % letter] = body + ending[1] % ("M%s0" % letter)
+        names.append("m" + letter)
+    head = "".join("local %s = require('./%s')%s" % (n, n, "\n" if rng.randrange(3) else "\n\n") for n in names)
+    if simple:
+        tail = "print(Me1)\nlocal y = Me2\n\nreturn y,\n  Me3\n"
+    else:
+        tail, _, _, _ = G.program(rng, mode="random", markers=Markers("e"), density=2, avoid_known=True)
+    return head + "Me0()\n" + tail, files, used
+
+
+def file_height(src):
+    """lines a module takes in the bundle: its last line number (a final line break opens an empty last line)"""
+    return src.count("\n") + 1
+
+
+def check_bundle(entry, files, out):
+    """None, or a description: every surviving marker of one file is shifted by one common amount, and that
+    amount is the total height of the files written above it"""
+    try:
+        om = marker_lines(out)
+    except L.LexError as ex:
+        return "output does not lex: %s" % ex
+    per_file = []
+    for path, src in list(files.items()) + [("src/main.lua", entry)]:
+        sm = marker_lines(src)
+        shifts = {}
+        for m, lines in sm.items():
+            if m in om and len(om[m]) == len(lines) == 1:
+                shifts[m] = om[m][0] - lines[0]
+        if not shifts:
+            continue
+        per_file.append((min(om[m][0] for m in shifts), path, src, shifts))
+    per_file.sort()
+    expected = 0
+    for _, path, src, shifts in per_file:
+        values = sorted(set(shifts.values()))
+        if len(values) > 1:
+            a = min(shifts, key=lambda m: shifts[m])
+            b = max(shifts, key=lambda m: shifts[m])
+            return "markers of %s are not shifted by one amount: %s by %d, %s by %d" % (path, a, shifts[a], b, shifts[b])
+        if values[0] != expected:
+            return "%s is shifted by %d lines, the files above it are %d lines high" % (path, values[0], expected)
+        expected += file_height(src)
+    return None
+
+
+def multi_line_last_token(src):
+    """the module's last code token spans several lines and nothing but the end of the file follows it"""
+    try:
+        toks, comments = L.lex(src.encode("utf-8"))
+    except L.LexError:
+        return False
+    if not toks:
+        return False
+    last = toks[-1]
+    return b"\n" in last.text and last.end == len(src.encode("utf-8"))
 
 
 def configs(rng, n_default, n_neutral):
@@ -299,15 +401,85 @@ def run(ctx):
                                                 "replay": "process the source with this configuration (generator retain_lines) "
                                                           "and compare the line of each 'M<n>' literal"}, key=key)
 
+    bundle_bad = run_bundles(ctx, rng, quick)
+    model_bad = model_bad + bundle_bad
+
     if model_bad and not ctx.violations:
         cid, d = model_bad[0]
         ctx.violation("correspondence broken: replaying the recorded write requests through Model/TokenGen.generate does "
                       "not give the Rust output (theorems no longer apply to the code)",
-                      {"config": jobs[cid][1], "source": jobs[cid][2], "diag": d, "mismatches": len(model_bad)},
+                      {"config": jobs[cid][1] if isinstance(cid, int) else cid[0],
+                       "source": jobs[cid][2] if isinstance(cid, int) else cid[1], "diag": d, "mismatches": len(model_bad)},
                       found_input=False)
     if not proofs_ok and not ctx.violations:
         failed = [n for n, ok, _ in ctx.obligations if not ok]
         ctx.violation("proof obligation no longer checks: " + "; ".join(failed), {"obligations": failed}, found_input=False)
+
+
+def run_bundles(ctx, rng, quick):
+    """bundling stream: returns the list of model/code mismatches [((config, entry), diag)]"""
+    cases = []
+    fixed = [
+        (3, ["newline", "no-newline", "newline"]),
+        (3, ["newline", "comment-line", "newline"]),
+        (3, ["no-newline", "no-newline", "no-newline"]),
+        (4, ["newline", "comment-same-line", "long-comment", "blank-lines"]),
+        (2, ["comment-line-newline", "no-newline"]),
+        (2, ["multi-line-last-token", "newline"]),
+        (3, ["newline", "multi-line-last-token-newline", "no-newline"]),
+    ]
+    for n, endings in fixed:
+        cases.append(bundle_case(rng, 0, n, endings, simple=True))
+        cases.append(bundle_case(rng, 0, n, endings, simple=False))
+    for i in range(14 if quick else 120):
+        cases.append(bundle_case(rng, i, 2 + i % 3))
+    jobs = []
+    for entry, files, used in cases:
+        for c in BUNDLE_CONFIGS:
+            jobs.append((c, entry, files, used))
+        if "print(Ma1)" in files.get("src/ma.lua", ""):
+            jobs.append((BUNDLE_CONFIG_DEFAULT, entry, files, used))
+    rows = [{"id": i, "config": json.dumps(j[0]), "src": j[1], "files": j[2], "trace": True} for i, j in enumerate(jobs)]
+    res = _run(rows, crate="dl-c04")
+    errors = {}
+    checked = nontrivial = 0
+    coq_cases = []
+    reported = {}
+    for i, (c, entry, files, used) in enumerate(jobs):
+        r = res[i]
+        if not r["ok"]:
+            if r.get("panic"):
+                ctx.violation("darklua panicked while bundling", {"config": c, "source": entry, "files": files})
+            errors[r["err"][:70]] = errors.get(r["err"][:70], 0) + 1
+            continue
+        checked += 1
+        if len(files) >= 2 and any(u != "newline" for u in used):
+            nontrivial += 1
+        problem = check_bundle(entry, files, r["out"])
+        if len(entry.encode("utf-8")) < 2500 and len(coq_cases) < (40 if quick else 300):
+            coq_cases.append((i, coq_case(entry, r["out"], r["trace"])))
+        if problem is None:
+            continue
+        key = None
+        if any(multi_line_last_token(s) for s in files.values()):
+            key = KEY_BUNDLE_MULTILINE
+        tag = key or "unclassified"
+        reported[tag] = reported.get(tag, 0) + 1
+        if reported[tag] > 2:
+            continue
+        ctx.violation("bundle: " + problem, {"config": c, "source": entry, "files": files, "module_endings": used,
+                                             "output": r["out"],
+                                             "replay": "process src/main.lua with the files next to it and this configuration; "
+                                                       "compare the line of every M<file><n> marker with its line in its own file"},
+                      key=key)
+    badc = C.run_coq_cases(ctx.prop, PREAMBLE, coq_cases, chunk=8, tag="bundle") if coq_cases else []
+    mism = [((jobs[cid][0], jobs[cid][1]), d) for cid, d in badc if "model=BAD" in d]
+    ctx.stream("bundling (require_mode path, retain_lines): an entry and 2-4 modules ending with / without a final line "
+               "break, a trailing comment, a multi-line last token; every marker of a file shifted by one amount equal to "
+               "the height of the files above it; recorded write requests replayed through the model", checked, nontrivial,
+               [{"entry": jobs[0][1][:80], "modules": list(jobs[0][2].values())[:2], "endings": jobs[0][3]}],
+               model_replays=len(coq_cases), model_mismatches=len(mism), rejected=errors)
+    return mism
 
 
 def first_bad_marker(c, s, out):
